@@ -135,7 +135,12 @@ def run(ctx):
     r.idiom("R15.2", texts == ["token['data'][None, 'content'] = 'text/html; charset=%s' % self.encoding",
                                "token['data'][namespace, name] = self.encoding"], "rewrites", f.where,
             "existing declarations are not rewritten to the requested encoding: %s" % texts,
-            wrong=[(len(texts) < 2, None)])
+            wrong=[(len(texts) < 2, None),
+                   (any(isinstance(n.ast.value, ast.Call) and isinstance(n.ast.value.func, ast.Attribute) and n.ast.value.func.attr in ("sub", "replace", "subn")
+                        for n in rew),
+                    "the content= value of an existing pragma is rewritten by substituting inside the old value: when the old value has no "
+                    "charset parameter (content=\"text/html\") nothing is substituted, yet the declaration counts as found and none is "
+                    "injected -- the output declares no encoding")])
     for n in rew:
         if "charset=%s" in norm(n.ast):
             dom = cfg.dominated_by(n, lambda m, lab: m.kind == "test" and norm(m.ast) == "has_http_equiv_content_type" and lab is True)
